@@ -1241,6 +1241,8 @@ fn check_matching_pattern(
           abstract_pattern_nodes.push(pattern_matching::AbstractPatternNode::wildcard());
         }
       }
+      // Extra elements were already reported; keep every row of the pattern matrix at the tuple's arity.
+      abstract_pattern_nodes.truncate(fields.len());
       (
         pattern::MatchingPattern::Tuple(pattern::TuplePattern {
           location: *pattern_loc,
@@ -1435,6 +1437,8 @@ fn check_matching_pattern(
           abstract_pattern_nodes.push(pattern_matching::AbstractPatternNode::wildcard());
         }
       }
+      // Extra elements were already reported; keep every row of the pattern matrix at the variant's arity.
+      abstract_pattern_nodes.truncate(resolved_enum_variant.types.len());
       (
         pattern::MatchingPattern::Variant(pattern::VariantPattern {
           loc: *loc,
